@@ -59,7 +59,8 @@ class AstToODataVisitor(visitor.NodeVisitor):
 
     def visit_String(self, node: ast.String) -> str:
         """:meta private:"""
-        return "'" + node.val + "'"
+        # Single quotes inside a string are represented by doubling them:
+        return "'" + node.val.replace("'", "''") + "'"
 
     def visit_Duration(self, node: ast.Duration) -> str:
         """:meta private:"""
